@@ -591,6 +591,8 @@ class RF24:
     def get_payload_length(self, pipe_number: int = 0) -> int:
         """Returns an `int` describing the specified data pipe's static
         payload length."""
+        if not 0 <= pipe_number <= 5:
+            raise IndexError("pipe_number must be in range [0, 5]")
         self._pl_len[pipe_number] = self._reg_read(RX_PL_LENG + pipe_number)
         return self._pl_len[pipe_number]
 
